@@ -7,7 +7,9 @@ WT=/tmp/vs-$PID-$$
 git -C /repo worktree add -q --detach $WT HEAD || exit 2
 cp $SRC/demo_test.py $WT/ 2>/dev/null
 for f in $SRC/*.py; do [ -f "$f" ] && cp $f $WT/ 2>/dev/null; done
-rundemo() { (cd $WT && if grep -q "def test_" demo_test.py; then timeout 300 /venv/bin/python -m pytest -q -p no:cacheprovider demo_test.py >/tmp/vs-demo-$PID.log 2>&1; else timeout 300 /venv/bin/python demo_test.py >/tmp/vs-demo-$PID.log 2>&1; fi; echo $?); }
+for d in $SRC/demo_*; do [ -d "$d" ] && cp -r $d $WT/ 2>/dev/null; done
+DEMO_PY=${DEMO_PY:-/venv/bin/python}
+rundemo() { (cd $WT && if [ "$DEMO_PY" = "/venv/bin/python" ] && grep -q "def test_" demo_test.py; then timeout 300 /venv/bin/python -m pytest -q -p no:cacheprovider demo_test.py >/tmp/vs-demo-$PID.log 2>&1; else timeout 300 $DEMO_PY demo_test.py >/tmp/vs-demo-$PID.log 2>&1; fi; echo $?); }
 A=$(rundemo); echo "demo without change: rc=$A (expect 0)"
 (cd $WT && git apply $SRC/patch.diff) || { echo "PATCH DOES NOT APPLY"; git -C /repo worktree remove --force $WT; exit 2; }
 B=$(rundemo); echo "demo with change:    rc=$B (expect != 0)"
